@@ -43,3 +43,37 @@ c04_chi!(c04_chi_squared_f64, f64);
 //@ bounds: every f32 bit pattern
 //@ assumes: libm::sqrtf by contract
 c04_chi!(c04_chi_squared_f32, f32);
+
+// ------------------------------------------------------------------------------------------
+// C03: ChiSquared(1) = z^2
+// ------------------------------------------------------------------------------------------
+macro_rules! c03_chi_one {
+    ($name:ident, $f:ty) => {
+        vproof_zstub! {
+            fn $name() {
+                let mut rng = SymRng::new(1);
+                let d = ChiSquared::<$f>::new(1.0).unwrap();
+                let x: $f = d.sample(&mut rng);
+                vassert!(x == x && x >= 0.0 && x.is_finite(), "ChiSquared(1) sample is not a finite non-negative number");
+                vassert!(rng.pos == 1, "ChiSquared(1) is one standard normal draw");
+                kani::cover!(true, "reached");
+            }
+        }
+    };
+}
+//@ id: c03_chi_squared_one_f64
+//@ prop: C03
+//@ tier: quick
+//@ cap: 300
+//@ funcs: ChiSquared::<f64>::new (k = 1 branch); ChiSquared::<f64>::sample
+//@ bounds: k = 1; every word
+//@ assumes: utils::ziggurat by contract
+c03_chi_one!(c03_chi_squared_one_f64, f64);
+//@ id: c03_chi_squared_one_f32
+//@ prop: C03
+//@ tier: quick
+//@ cap: 300
+//@ funcs: ChiSquared::<f32>::new (k = 1 branch); ChiSquared::<f32>::sample
+//@ bounds: k = 1; every word
+//@ assumes: utils::ziggurat by contract
+c03_chi_one!(c03_chi_squared_one_f32, f32);
